@@ -117,8 +117,11 @@ end generic
 theorem setDirtyFlag_ioSafe (b : Bool) : IoSafe (setDirtyFlag b) := by
   unfold setDirtyFlag; iosafe [writeU8_ioSafe, devStrm_safe]
 
+theorem markDirtyBeforeWrite_ioSafe : IoSafe markDirtyBeforeWrite := by
+  unfold markDirtyBeforeWrite; iosafe [setDirtyFlag_ioSafe]
+
 theorem adapterStrm_safe : StrmSafe adapterStrm := by
-  refine ⟨?_, ?_, ?_⟩ <;> intros <;> simp only [adapterStrm] <;> iosafe [setDirtyFlag_ioSafe]
+  refine ⟨?_, ?_, ?_⟩ <;> intros <;> simp only [adapterStrm] <;> iosafe [setDirtyFlag_ioSafe, markDirtyBeforeWrite_ioSafe]
 
 theorem DiskSlice.inner_safe (s : DiskSlice) : StrmSafe s.inner := by
   unfold DiskSlice.inner; split
